@@ -776,17 +776,18 @@ class CreateKeyPairResponsePayload(base.ResponsePayload):
                 "key unique identifier field."
             )
 
-        if self._private_key_template_attribute:
-            self._private_key_template_attribute.write(
-                local_buffer,
-                kmip_version=kmip_version
-            )
+        if kmip_version < enums.KMIPVersion.KMIP_2_0:
+            if self._private_key_template_attribute:
+                self._private_key_template_attribute.write(
+                    local_buffer,
+                    kmip_version=kmip_version
+                )
 
-        if self._public_key_template_attribute:
-            self._public_key_template_attribute.write(
-                local_buffer,
-                kmip_version=kmip_version
-            )
+            if self._public_key_template_attribute:
+                self._public_key_template_attribute.write(
+                    local_buffer,
+                    kmip_version=kmip_version
+                )
 
         self.length = local_buffer.length()
         super(CreateKeyPairResponsePayload, self).write(
